@@ -293,7 +293,18 @@ def gen_hist(rng):
                 ops.append(['hloc', [['lab', tok(cur[-1][0])]] if cur else [['all']]])
             else:
                 ops.append([rd])
-    return {'k': 'hist', 'toks': toks, 'kinds': kinds, 'ops': ops}
+    return quiet_variant(rng, {'k': 'hist', 'toks': toks, 'kinds': kinds, 'ops': ops})
+
+
+def quiet_variant(rng, c):
+    """Half of the histories are QUIET: nothing is read from the growing index between its growth calls (the harness only
+    looks after the last call and at the explicit read operations of the history; half of the quiet ones have none), so that
+    state a growth call leaves pending is still pending when the next growth call arrives."""
+    if rng.random() < 0.5:
+        c['quiet'] = True
+        if rng.random() < 0.5:
+            c['ops'] = [op for op in c['ops'] if op[0] in ('ap', 'ex')] or c['ops']
+    return c
 
 
 def product_tuples(rng, depth, kinds, max_leaves=18):
@@ -319,7 +330,7 @@ def gen_hist_routes(rng, depth=None, route=None):
         toks, kinds = ic.rand_tree_tuples(rng, depth, kinds=kinds, max_fan=3, max_leaves=rng.choice([2, 5, 9]))
         tups = [untok(t) for t in toks]
     ops = ic.rand_grow_history(rng, tups, kinds, rng.randint(2, 6))
-    return {'k': 'hist', 'toks': [tok(t) for t in tups], 'kinds': kinds, 'start': route, 'ops': ops}
+    return quiet_variant(rng, {'k': 'hist', 'toks': [tok(t) for t in tups], 'kinds': kinds, 'start': route, 'ops': ops})
 
 
 def fixed_route_histories():
@@ -755,6 +766,9 @@ def eval_hist(ctx, c, outs):
             read_seen = True
             raised.append(None)
         # after every call every view must describe the current tuples (cached arrays included)
+        if k in ('ap', 'ex') and c.get('quiet') and oi != len(c['ops']) - 1:
+            ctx.count('hist_growth_call_without_read_after')
+            continue
         if k in ('ap', 'ex'):
             # after every growth step (accepted or refused) EVERY view is compared with the reference
             order = ['list', 'len', 'values', 'vad', 'widths', 'in', 'loc']
